@@ -317,6 +317,115 @@ fn mpq_drive(_s: &Seed, data: &[u8], p: &mut Probe) {
     p.call("Archive::load_attributes", || ar.load_attributes());
     p.call("Archive::get_info", || ar.get_info());
     p.call("Archive::verify_signature", || ar.verify_signature());
+    // ---- the other listing and reading entry points of the same handle
+    p.call("Archive::list_all", || ar.list_all());
+    p.call("Archive::list_with_hashes", || ar.list_with_hashes());
+    p.call("Archive::list_all_with_hashes", || ar.list_all_with_hashes());
+    let slots: Vec<(usize, usize)> = ar.hash_table().map(|h| h.entries().iter().enumerate().filter(|(_, e)| e.block_index < 0xFFFF_FFFE).map(|(i, e)| (i, e.block_index as usize)).take(12).collect()).unwrap_or_default();
+    for (hi, bi) in slots.iter().copied().chain([(0usize, 0usize), (usize::MAX, usize::MAX), (1, 1 << 20)]) {
+        p.call("Archive::read_file_by_indices", || ar.read_file_by_indices(hi, Some(bi)));
+    }
+    for hi in [0usize, 1, 5, 1 << 20] {
+        p.call("Archive::read_file_by_indices", || ar.read_file_by_indices(hi, None));
+    }
+    p.call_plain("Archive::get_file_attributes", || std::hint::black_box((ar.get_file_attributes(0).is_some(), ar.get_file_attributes(usize::MAX).is_some())));
+    drop(ar);
+    // ---- deferred table loading
+    if let Some(mut lazy) = p.call("Archive::open_with_options", || Archive::open_with_options(&path, wow_mpq::OpenOptions::new().load_tables(false))) {
+        if p.call("Archive::load_tables", || lazy.load_tables()).is_some() {
+            p.call("Archive::list", || lazy.list());
+        }
+    }
+    let first: Vec<&str> = names.iter().map(|s| s.as_str()).take(6).collect();
+    // ---- the other objects that open the same file
+    if let Some(mut m) = p.call("MutableArchive::open", || wow_mpq::MutableArchive::open(&path)) {
+        p.call("MutableArchive::list", || m.list());
+        for n in &first {
+            p.call("MutableArchive::read_file", || m.read_file(n));
+        }
+        // nothing was modified: dropping the handle must not write
+        std::mem::drop(m);
+    }
+    let mut chain = wow_mpq::PatchChain::new();
+    if p.call("PatchChain::add_archive", || chain.add_archive(&path, 0)).is_some() {
+        p.call("PatchChain::list", || chain.list());
+        for n in &first {
+            p.call("PatchChain::read_file", || chain.read_file(n));
+        }
+        p.call_plain("PatchChain::get_chain_info", || chain.get_chain_info().len());
+    }
+    if let Some(pa) = p.call("ParallelArchive::open", || wow_mpq::single_archive_parallel::ParallelArchive::open(&path)) {
+        p.call("ParallelArchive::extract_files_parallel", || pa.extract_files_parallel(&first));
+        p.call("ParallelArchive::extract_files_batched", || pa.extract_files_batched(&first, 2));
+    }
+    let mut lo = wow_mpq::RebuildOptions::default();
+    lo.list_only = true;
+    p.call("rebuild_archive(list_only)", || wow_mpq::rebuild_archive(&path, &p_dst(&path), lo, None));
+    p.call("compare_archives", || wow_mpq::compare::compare_archives(&path, &path, true, true, false, false, None));
+    // ---- the readers below the archive object, over the same bytes
+    p.call("MpqHeader::read", || wow_mpq::MpqHeader::read(&mut std::io::Cursor::new(data)));
+    if let Some((off, _, h)) = p.call("find_header", || wow_mpq::header::find_header(&mut std::io::Cursor::new(data))) {
+        let (hp, bp) = (off + h.get_hash_table_pos(), off + h.get_block_table_pos());
+        p.call("HashTable::read", || wow_mpq::HashTable::read(&mut std::io::Cursor::new(data), hp, h.hash_table_size));
+        p.call("BlockTable::read", || wow_mpq::BlockTable::read(&mut std::io::Cursor::new(data), bp, h.block_table_size));
+        let tail = |at: u64| -> &[u8] { data.get(at as usize..).unwrap_or(&[]) };
+        p.call("HashTable::from_bytes", || wow_mpq::HashTable::from_bytes(tail(hp), h.hash_table_size));
+        p.call("BlockTable::from_bytes", || wow_mpq::BlockTable::from_bytes(tail(bp), h.block_table_size));
+    }
+}
+
+fn p_dst(src: &std::path::Path) -> std::path::PathBuf {
+    src.with_extension("rebuilt.mpq")
+}
+
+// ------------------------------------------------- slice-level decoders ----
+
+/// Seeds: what the library's own compressors emit for a few contents (method byte stripped), signature files, RLE streams.
+fn raw_seeds(_ctx: &SeedCtx) -> Vec<Seed> {
+    let mut rng = vh_common::Rng::new(0xC05_0005);
+    let mut out = Vec::new();
+    let text = vh_common::gen_content(&mut rng, "text", 3000);
+    let sparse = vh_common::gen_content(&mut rng, "sparse", 3000);
+    for (k, (label, m, src)) in [("zlib", 0x02u8, &text), ("bzip2", 0x10, &text), ("lzma", 0x12, &text), ("sparse", 0x20, &sparse), ("sparse+zlib", 0x22, &sparse), ("adpcm-mono", 0x40, &text), ("adpcm-stereo+huffman", 0x81, &text)].into_iter().enumerate() {
+        if let Ok(c) = wow_mpq::compress(src, m) {
+            if c.len() < src.len() && c.first() == Some(&m) {
+                // aux = index into RAW_METHODS (the selector the stream was made for)
+                out.push(Seed::fixed(format!("raw/{label}"), c[1..].to_vec(), 16).with_aux(k));
+            }
+        }
+    }
+    // an RLE stream as patch files carry it (4-byte size header + runs)
+    let mut rle = 3000u32.to_le_bytes().to_vec();
+    for i in 0..40u8 {
+        rle.push(0x80 | 20);
+        rle.extend((0..21).map(|j| i.wrapping_mul(3).wrapping_add(j)));
+        rle.push(50);
+    }
+    out.push(Seed::fixed("raw/rle", rle, 8).with_aux(7));
+    out.push(Seed::fixed("raw/weak-signature-file", (0..72u32).map(|i| (i * 5) as u8).collect(), 8).with_aux(7));
+    out.push(Seed::fixed("raw/strong-signature", b"NGIS".iter().copied().chain((0..256u32).map(|i| (i * 3) as u8)).collect(), 8).with_aux(7));
+    out
+}
+
+const RAW_METHODS: [u8; 8] = [0x02, 0x10, 0x12, 0x20, 0x22, 0x40, 0x81, 0x08];
+
+fn raw_drive(s: &Seed, data: &[u8], p: &mut Probe) {
+    let own = RAW_METHODS[s.aux % RAW_METHODS.len()];
+    // the selector the stream was made for (with the true size and with sizes a hostile block table could announce), then every other selector
+    for size in [3000usize, 0, 1, 64 << 10, 2 << 20] {
+        p.call("compression::decompress", || wow_mpq::decompress(data, own, size));
+    }
+    for m in [0x02u8, 0x10, 0x12, 0x20, 0x08, 0x01, 0x40, 0x80, 0x41, 0x81, 0x22, 0x30, 0x0A, 0xFF, 0x00] {
+        p.call("compression::decompress", || wow_mpq::decompress(data, m, 3000));
+    }
+    let st = wow_mpq::SessionTracker::new();
+    p.call("compression::decompress_secure", || wow_mpq::compression::decompress_secure(data, own, 3000, Some("a\\b.mpq"), &st, &wow_mpq::SecurityLimits::default()));
+    for (size, skip) in [(3000usize, true), (3000, false), (0, true), (1 << 20, true)] {
+        p.call("rle::decompress", || wow_mpq::compression::rle::decompress(data, size, skip));
+    }
+    p.call("parse_weak_signature", || wow_mpq::crypto::parse_weak_signature(data));
+    p.call("parse_strong_signature", || wow_mpq::crypto::parse_strong_signature(data));
+    p.seed_valid = Some(true);
 }
 
 // ----------------------------------------------------------- PTCH seeds ----
@@ -512,13 +621,27 @@ pub fn formats() -> Vec<FormatDef> {
         FormatDef {
             name: "mpq",
             family: "mpq",
-            entries: &["Archive::open", "Archive::list", "Archive::find_file", "Archive::read_file", "Archive::load_attributes", "Archive::get_info", "Archive::verify_signature"],
+            entries: &["Archive::open", "Archive::list", "Archive::find_file", "Archive::read_file", "Archive::load_attributes", "Archive::get_info", "Archive::verify_signature",
+                       "Archive::list_all", "Archive::list_with_hashes", "Archive::list_all_with_hashes", "Archive::read_file_by_indices", "Archive::get_file_attributes", "Archive::open_with_options",
+                       "Archive::load_tables", "MutableArchive::open", "MutableArchive::list", "MutableArchive::read_file", "PatchChain::add_archive", "PatchChain::list", "PatchChain::read_file",
+                       "PatchChain::get_chain_info", "ParallelArchive::open", "ParallelArchive::extract_files_parallel", "ParallelArchive::extract_files_batched", "rebuild_archive(list_only)",
+                       "compare_archives", "MpqHeader::read", "find_header", "HashTable::read", "BlockTable::read", "HashTable::from_bytes", "BlockTable::from_bytes"],
             seeds: mpq_seeds,
             drive: mpq_drive,
             cipher: Some(Cipher { encrypt: wow_mpq::crypto::encrypt_block, decrypt: wow_mpq::crypto::decrypt_block }),
             // 16 seeds share the havoc budget of what are really six kinds of archive: give MPQ 4x the per-format default
             havoc_scale: 4.0,
             max_field_offsets: (420, 1500),
+        },
+        FormatDef {
+            name: "mpq-raw",
+            family: "mpq",
+            entries: &["compression::decompress", "compression::decompress_secure", "rle::decompress", "parse_weak_signature", "parse_strong_signature"],
+            seeds: raw_seeds,
+            drive: raw_drive,
+            cipher: None,
+            havoc_scale: 1.0,
+            max_field_offsets: (16, 64),
         },
         FormatDef {
             name: "mpq-special",
